@@ -16,7 +16,18 @@ there.  This module
   * in the parent turns the records into correspondence cases for the Lean driver (`c13 w2i`: the integer weight really
     handed to the C library = the model's weight_to_int; `c13 check`: the returned pairs are a perfect matching of
     minimum total INTEGER weight as handed over — verified oracle; `c13 check/checkops` on the ORIGINAL weights within
-    the documented rounding allowance) and into monitor failures.
+    the documented rounding allowance) and into monitor failures;
+  * TIES THE LEAN MODEL OF THE WRAPPER (Model/Blossom5.lean: `mwpmIds` <-> blossom5.mwpm_ids, `mwpmObjs` <-> blossom5.mwpm,
+    `mwpmBlossom5` <-> gt.mwpm_blossom5, `Matching.mwpm` <-> the dispatch of gt.mwpm) to the real wrapper: for every call
+    that reaches it the child records (a) the arrays the C function really received and (b) the mates array it left
+    behind (both dumped by the stand-in C code itself into $QV_PYPM_TRACE, one line per call), (c) the Python result,
+    and the node listing `list(set(...))` of blossom5.mwpm (rebuilt from the very edge list handed to blossom5.mwpm,
+    by the wrapper's own expression, in the same process: same objects, same insertion sequence => same hash order).
+    The driver ops `c13 b5ids / b5objs / b5gt / b5mwpm` run the model on the function's argument, that listing and the
+    mates array (`clib` := table look-up) and print the id edge arrays handed to clib, n_nodes, the assert outcome, the
+    id pairs and the node pairs; all of these must EQUAL the recorded ones (sets in sorted order; the weights also
+    after the 32-bit truncation ctypes applies when it fills a c_int array).  Error paths: the contiguity assert of
+    mwpm_ids (no C call), the empty-graph shortcut of mwpm_blossom5 (no call of blossom5.mwpm), empty edge lists.
 
 What is claimed about the ORIGINAL weights (no false alarms): scaling floats (or large ints) to ints legitimately loses
 precision.  With s = infty/10/max|w| the documented factor, every weight is replaced by round(w*s); a matching that is
@@ -42,6 +53,7 @@ C_SOURCE = os.path.join(HERE, 'c13_pypm_standin.c')
 INFTYS = [1 << 30, 1000]        # documented in c13_pypm_standin.c
 MAX_N = 16                       # judged by the Python DP; the Lean oracle is used up to c13.ORACLE_MAX_NODES
 MARK = '@@'
+TRACE_NAME = 'pypm_trace.txt'    # written by the stand-in C code (one line per call of its mwpm), inside Lib.cfg
 
 
 class NoCompiler(Exception):
@@ -85,7 +97,7 @@ CHILD_CODE = 'import sys; sys.path.insert(0, sys.argv[1]); from qv import c13_st
 
 
 def start_child(cfg, request):
-    env = dict(os.environ, QECSIM_CFG=cfg)
+    env = dict(os.environ, QECSIM_CFG=cfg, QV_PYPM_TRACE=os.path.join(cfg, TRACE_NAME))
     p = subprocess.Popen([sys.executable, '-c', CHILD_CODE, HARNESS], stdin=subprocess.PIPE, stdout=subprocess.PIPE,
                          stderr=subprocess.PIPE, text=True, env=env)
     p._qv_request = json.dumps(request)
@@ -124,6 +136,8 @@ def make_post(spec, impl, ctx):
     from qv.props import c13
     if not spec:
         return None
+    if spec[0] == 'tie':
+        return post_tie
     if spec[0] == 'tok1':
         return lambda reply: reply.split(' ')[1] if ' ' in reply else reply
     if spec[0] == 'check':
@@ -131,6 +145,20 @@ def make_post(spec, impl, ctx):
         scale = None if allow is None else Fraction(allow) / Fraction(c13.REL_TOL)
         return c13.make_post_check(scale, impl, ctx)
     raise ValueError(spec)
+
+
+def wrap32(x):
+    """value of a Python int stored into a ctypes c_int slot (ctypes truncates to 32 bits, two's complement)"""
+    return ((int(x) + 2 ** 31) % 2 ** 32) - 2 ** 31
+
+
+def post_tie(reply):
+    """model reply of a b5* op + the weights as a c_int array holds them (the model keeps the Python ints)"""
+    for tok in reply.split(' '):
+        if tok.startswith('w='):
+            ws = [] if tok == 'w=_' else [int(x) for x in tok[2:].split(',')]
+            return reply + ' cw=' + (','.join(str(wrap32(x)) for x in ws) or '_')
+    return reply
 
 
 def feed(ctx, recs, died, inf):
@@ -344,10 +372,46 @@ def judge(n, wd, cm, allow):
 
 class Trace:
     def __init__(self):
+        self.cfile = None
+        path = os.environ.get('QV_PYPM_TRACE')
+        if path:
+            open(path, 'ab').close()
+            self.cfile = open(path, 'rb', buffering=0)
         self.reset()
 
     def reset(self):
         self.mwpm, self.ids, self.c, self.gt_b5, self.gt_nx = [], [], [], 0, 0
+        self.listing = []        # per blossom5.mwpm call: list(set(...)) rebuilt from the edges handed over
+        self.drain()
+        self.cd = []             # per C call: what the stand-in C code itself dumped (arguments + mates)
+
+    def drain(self):
+        """lines the C code appended since the last drain -> self.cd"""
+        if self.cfile is None:
+            return
+        data = b''
+        while True:
+            chunk = self.cfile.read()
+            if not chunk:
+                break
+            data += chunk
+        for line in data.decode('ascii', 'replace').splitlines():
+            try:
+                head, a, b, w, m = line.split('|')
+                nn, ne = head.split(' ')
+                ints = lambda t: [int(x) for x in t.split(' ')] if t else []      # noqa: E731
+                self.cd.append({'n_nodes': int(nn), 'n_edges': int(ne), 'a': ints(a), 'b': ints(b), 'w': ints(w),
+                                'mates': ints(m)})
+            except ValueError:
+                self.cd.append({'unreadable': line[:80]})
+
+    def snapshot(self):
+        self.drain()
+        return (list(self.mwpm), list(self.ids), list(self.c), self.gt_b5, self.gt_nx, list(self.listing), list(self.cd))
+
+    def restore(self, snap):
+        self.reset()
+        self.mwpm, self.ids, self.c, self.gt_b5, self.gt_nx, self.listing, self.cd = snap
 
 
 def install_spies(tr):
@@ -361,6 +425,12 @@ def install_spies(tr):
             tr.mwpm.append([tuple(e) for e in edges])
         except Exception:
             tr.mwpm.append(None)
+        try:
+            # the wrapper's own expression on the very list it is about to receive (same objects, same insertion
+            # sequence, same process => the same hash order as the wrapper's `nodes`)
+            tr.listing.append(list(set(node for (node_a, node_b, _) in edges for node in (node_a, node_b))))
+        except Exception:
+            tr.listing.append(None)
         return o_mwpm(edges)
 
     def s_ids(edges):
@@ -579,6 +649,8 @@ class Session:
             return ('did not return within 20 s', 'mwpm.timeout'), None
         except Exception as ex:
             return ('raised {!r} (the graph has a perfect matching)'.format(ex), None), None
+        finally:
+            self.tr.drain()
 
     def build_arg(self, inp, nodes):
         from qecsim import graphtools as gt
@@ -620,6 +692,9 @@ class Session:
         items = None
         if inp.get('kind') != 'edges' and isinstance(arg, dict):
             items = [((ids[a], ids[b]), w) for (a, b), w in arg.items()]
+        if self.explore and fn != 'mwpm_networkx' and part != 'decoder':      # decoder graphs: tied by explore_decoders
+            # model of the wrapper vs what the wrapper did (whatever the verdict on the answer is)
+            self.tie_case(inp, fn, n, ids, arg, ops, weights, items, r, doc, part)
         if bad:
             return {'bad': '{}: {}{}'.format(self.fname(fn), bad, diagnose(tr, doc, items or [])), 'key': None,
                     'returned': cm if isinstance(cm, str) else c13.mates_wire(cm)}
@@ -656,6 +731,91 @@ class Session:
                 if isinstance(ret, set):
                     self.count('standin.ids-result', 'sorted-tuples' if all(
                         isinstance(p, tuple) and len(p) == 2 and p[0] <= p[1] for p in ret) else 'UNSORTED')
+
+    # -- the tie of Model/Blossom5.lean to the real wrapper (see the module docstring)
+    def observed(self, r, ids, expect_calls=1):
+        """what the real wrapper did, in the driver's reply format; None (+ a count) when outside the model's types"""
+        c13, tr = self.c13, self.tr
+        if len(tr.cd) != expect_calls or len(tr.ids) != expect_calls:
+            return 'c-calls={} mwpm_ids-calls={}'.format(len(tr.cd), len(tr.ids))
+        c, idrec = tr.cd[0], tr.ids[0]
+        if 'unreadable' in c:
+            return 'c-trace-unreadable:' + c['unreadable']
+        if any(m < 0 for m in c['mates']):
+            self.count('standin.tie', 'skipped: C answered -1 (no perfect matching; outside the C contract, not a Nat)')
+            return None
+        ie = idrec['edges']
+        if ie is None or any(len(e) != 3 for e in ie):
+            return 'id-edges-unreadable'
+        raw = []
+        for e in ie:
+            raw.append(str(int(e[2])) if isinstance(e[2], int) else 'non-int:{!r}'.format(e[2]))
+        same_ab = [e[0] for e in ie] == c['a'] and [e[1] for e in ie] == c['b']
+        ret = idrec['ret']
+        if not isinstance(ret, (set, frozenset)) or not all(isinstance(p, tuple) and len(p) == 2 for p in ret):
+            idp = 'not-a-set-of-pairs'
+        else:
+            try:
+                idp = c13.mates_wire(sorted(ret)) if ret else '_'
+            except TypeError:
+                idp = 'unsortable'
+        cm = c13.canon_mates(r, ids)
+        lst = lambda v: ','.join(str(x) for x in v) or '_'      # noqa: E731
+        return 'a={} b={} w={} n={} args=ok assert=ok ids={} mates={} cw={}{}'.format(
+            lst(c['a']), lst(c['b']), ','.join(raw) or '_', c['n_nodes'], idp,
+            cm if isinstance(cm, str) else c13.mates_wire(cm), lst(c['w']),
+            '' if same_ab else ' ids-at-mwpm_ids-differ-from-C-arrays')
+
+    def tie_case(self, inp, fn, n, ids, arg, ops, weights, items, r, doc, part):
+        c13, tr, inf = self.c13, self.tr, self.inf
+        rat, fr = c13.rat, c13.fr
+        meta = {'part': 'standin', 'sub': 'tie:' + part, 'input': inp}
+        lst = lambda v: ','.join(str(x) for x in v) or '_'      # noqa: E731
+        if fn in ('b5.mwpm_ids', 'b5.mwpm'):
+            try:
+                edges = [(ids[a], ids[b], w) for a, b, w in arg]
+            except (KeyError, TypeError):
+                return
+            if any(not isinstance(w, int) for _, _, w in edges):
+                self.count('standin.tie', 'skipped: non-int weight in an edge list'); return
+            ewire = ';'.join('{},{},{}'.format(a, b, int(w)) for a, b, w in edges) or '_'
+        else:
+            if items is None or doc is None:
+                self.count('standin.tie', 'skipped: no dict items / documented factor not a finite float'); return
+            if not ops:
+                return       # empty graphs: explore_misc
+            try:
+                gwire = c13.graph_wire([(k, native(w)) for k, w in items])
+                prods = ';'.join(rat(p) for p in doc[3]) if doc[3] is not None else ';'.join('0/1' for _ in items)
+            except (TypeError, ValueError, OverflowError):
+                self.count('standin.tie', 'skipped: weight without an exact rational value'); return
+            allint = int(all(isinstance(w, int) for w in weights))
+        obs = self.observed(r, ids)
+        if obs is None:
+            return
+        mates = lst(tr.cd[0]['mates']) if len(tr.cd) == 1 and 'mates' in tr.cd[0] else '_'
+        if fn == 'b5.mwpm_ids':
+            line = 'c13 b5ids {} {}'.format(ewire, mates)
+        else:
+            if len(tr.listing) != 1 or tr.listing[0] is None or any(x not in ids for x in tr.listing[0]):
+                listing = None
+            else:
+                listing = lst(ids[x] for x in tr.listing[0])
+            if listing is None:
+                obs, listing = 'blossom5.mwpm-calls={}'.format(len(tr.listing)), '_'
+            if fn == 'b5.mwpm':
+                line = 'c13 b5objs {} {} {}'.format(listing, ewire, mates)
+            elif fn == 'mwpm_blossom5':
+                line = 'c13 b5gt {} {} {} {} {} {}'.format(rat(inf), allint, listing, gwire, prods, mates)
+            else:
+                from qecsim.graphtools import blossom5
+                line = 'c13 b5mwpm {} {} {} {} {} {} {}'.format(int(bool(blossom5.available())), rat(inf), allint, listing,
+                                                                gwire, prods, mates)
+                obs = 'dispatch={} {}'.format('blossom5' if tr.gt_b5 == 1 and tr.gt_nx == 0 else
+                                              'networkx' if tr.gt_nx == 1 and tr.gt_b5 == 0 else
+                                              'other:{}/{}'.format(tr.gt_b5, tr.gt_nx), obs)
+        self.count('standin.tie', fn)
+        self.emit({'type': 'case', 'line': line, 'impl': obs, 'nontrivial': n >= 4, 'meta': meta, 'post': ['tie']})
 
     def lean_cases(self, inp, fn, n, ids, ops, wd, weights, items, cm, allow, doc, part):
         c13, tr, inf = self.c13, self.tr, self.inf
@@ -777,13 +937,73 @@ def explore_misc(ses, rng, inf):
         if impl != 'empty':
             ses.emit({'type': 'fail', 'what': '{} on the empty graph does not yield the empty matching: {}'.format(
                 ses.fname(fn), impl), 'input': inp, 'key': 'mwpm.empty'})
+        elif fn != 'mwpm_networkx':
+            # tie to Model/Blossom5.lean: the shortcut `if not graph: return set()` of mwpm_blossom5 reaches neither
+            # blossom5.mwpm nor the C library; blossom5.mwpm([]) / mwpm_ids([]) call C with n_nodes = 0 and empty arrays
+            tr = ses.tr
+            meta = {'part': 'standin', 'sub': 'tie:empty', 'input': inp}
+            if fn in ('mwpm', 'mwpm_blossom5'):
+                obs = 'empty' if not tr.mwpm and not tr.ids and not tr.cd else 'empty-but-calls={}/{}/{}'.format(
+                    len(tr.mwpm), len(tr.ids), len(tr.cd))
+                if fn == 'mwpm':
+                    obs = 'dispatch={} {}'.format('blossom5' if tr.gt_b5 == 1 and tr.gt_nx == 0 else 'networkx' if
+                                                  tr.gt_nx == 1 and tr.gt_b5 == 0 else 'other', obs)
+                    line = 'c13 b5mwpm {} {} 1 _ _ _ _'.format(int(bool(blossom5.available())), inf)
+                else:
+                    line = 'c13 b5gt {} 1 _ _ _ _'.format(inf)
+            else:
+                obs = ses.observed(r, {})
+                line = 'c13 b5ids _ _' if fn == 'b5.mwpm_ids' else 'c13 b5objs _ _ _'
+            ses.count('standin.tie', fn + ' (empty)')
+            ses.emit({'type': 'case', 'line': line, 'impl': obs, 'nontrivial': False, 'meta': meta, 'post': ['tie']})
     ses.count('standin.infty', '{} (cached: {})'.format(blossom5.infty(), blossom5.infty() == blossom5.infty()))
     ses.count('standin.available', blossom5.available())
     # documented ASSUMPTION of mwpm_ids (ids contiguous from zero): the assertion is observed, not judged
-    for edges in ([(0, 2, 1), (2, 3, 1)], [(1, 2, 5)], [(-1, 0, 1)]):
+    from qv.props import c13
+    fixed = [[(0, 2, 1), (2, 3, 1)], [(1, 2, 5)], [(-1, 0, 1)], [(0, 0, 3)], [(1, 1, 3)], [(0, 1, 2), (3, 2, 1), (3, 5, 0)]]
+    for k in range(len(fixed) + 30):
+        if k < len(fixed):
+            edges = fixed[k]
+        else:
+            # a perfectly matchable id graph with one id removed / shifted / a gap opened (assert) or left alone (no assert)
+            n = rng.choice([2, 4, 4, 6, 8])
+            edges = c13.gen_planted(rng, n, rng.choice(['complete', 'sparse', 'path']), None, lambda: rng.randint(-5, 9))
+            how = rng.choice(['drop0', 'droplast', 'gap', 'shift', 'none', 'dropmid'])
+            v = rng.randrange(n)
+            if how == 'drop0':
+                edges = [e for e in edges if 0 not in e[:2]]
+            elif how == 'droplast':
+                edges = [e for e in edges if n - 1 not in e[:2]]        # still contiguous: no assert, n - 1 nodes
+            elif how == 'dropmid':
+                edges = [e for e in edges if v not in e[:2]]
+            elif how == 'gap':
+                edges = [(a + (a >= v), b + (b >= v), w) for a, b, w in edges]
+            elif how == 'shift':
+                edges = [(a + 1, b + 1, w) for a, b, w in edges]
+            rng.shuffle(edges)
         err, r = ses.call('b5.mwpm_ids', edges)
-        ses.count('standin.noncontiguous-ids', 'AssertionError' if err and 'AssertionError' in err[0] else
-                  ('raised-other' if err else 'returned'))
+        ses.emit({'type': 'eval', 'n': 1})
+        what = 'AssertionError' if err and 'AssertionError(' in err[0] else ('raised-other' if err else 'returned')
+        ses.count('standin.noncontiguous-ids', what)
+        if any(a < 0 or b < 0 for a, b, _ in edges):
+            continue                                    # ids of the model are naturals
+        inp = {'standin': inf, 'fn': 'b5.mwpm_ids', 'kind': 'edges', 'ops_repr': [[a, b, repr(w)] for a, b, w in edges],
+               'nodes': 'ids', 'node_seed': 0, 'n': 1 + max([max(a, b) for a, b, _ in edges] + [0]),
+               'note': 'ids not necessarily contiguous: documented assumption of mwpm_ids, the assert is observed'}
+        if what == 'AssertionError':
+            obs = 'assert=fail' if not ses.tr.cd else 'assert=fail-after-c-call'
+        elif what == 'returned':
+            obs = ses.observed(r, {i: i for i in range(inp['n'])})
+        else:
+            obs = 'raised:' + err[0][:80]
+        if obs is None:
+            continue
+        ses.count('standin.tie', 'b5.mwpm_ids (assert path: {})'.format(obs.split(' ')[0] if obs.startswith('assert') else 'no assert'))
+        ses.emit({'type': 'case', 'line': 'c13 b5ids {} {}'.format(
+            ';'.join('{},{},{}'.format(a, b, int(w)) for a, b, w in edges) or '_',
+            ','.join(str(x) for x in ses.tr.cd[0]['mates']) if len(ses.tr.cd) == 1 and ses.tr.cd[0].get('mates') else '_'),
+            'impl': obs, 'nontrivial': len(edges) >= 2, 'meta': {'part': 'standin', 'sub': 'tie:assert', 'input': inp},
+            'post': ['tie']})
 
 
 EXTREME_KEY = 'mwpm_blossom5.weight-magnitude-outside-float-range'
@@ -830,7 +1050,7 @@ def explore_decoders(ses, rng, inf, n_runs, nmax):
         snap = list(graph.items())
         ses.tr.reset()
         mates = orig(graph)
-        captured.append((snap, mates, ses.tr.gt_b5, ses.tr.gt_nx))
+        captured.append((snap, mates, ses.tr.snapshot()))
         return mates
 
     em = lambda: {'error_model': rng.choice([BiasedDepolarizingErrorModel(rng.choice([1, 3, 10, 100])),  # noqa: E731
@@ -869,7 +1089,7 @@ def explore_decoders(ses, rng, inf, n_runs, nmax):
                 ses.count('standin.decoder.outcome', name + ':timeout')
             except Exception as ex:
                 ses.count('standin.decoder.outcome', name + ':' + type(ex).__name__)
-            for snap, mates, nb5, nnx in captured:
+            for snap, mates, trsnap in captured:
                 graph = dict(snap)
                 if len(graph) != len(snap):
                     continue
@@ -885,8 +1105,14 @@ def explore_decoders(ses, rng, inf, n_runs, nmax):
                        'weight_types': sorted({type(w).__name__ for w in raw})}
                 ops = [(a, b, w) for (a, b), w in items]
                 wd = c13.last_write(ops)
-                ses.tr.reset(); ses.tr.gt_b5, ses.tr.gt_nx = nb5, nnx
+                ses.tr.restore(trsnap)
                 v = ses.verdict(inp, 'mwpm', n, ids, None, ops, wd, raw, None, mates, 'decoder')
+                if not v:
+                    try:
+                        _, doc = allowance('mwpm', n, raw, wd, inf)
+                    except (OverflowError, ZeroDivisionError):
+                        doc = None
+                    ses.tie_case(inp, 'mwpm', n, ids, None, ops, raw, items, mates, doc, 'decoder')
                 if v:
                     ses.emit({'type': 'fail', 'what': 'graph built by {}: {}'.format(name, v['bad']),
                               'input': dict(inp, returned=v.get('returned')), 'key': v.get('key')})
